@@ -370,6 +370,13 @@ fn attempt(
         res
     };
     res.map_err(|e| (e, count))?;
+    // chrono keeps second 60 as a leap second and its arithmetic on such a value is not
+    // consistent (adding 1 s to 23:59:60 added nothing, the difference to the next midnight
+    // was 0 s). Read second 60 as the first second of the next minute.
+    let leap = parsed.second == Some(60);
+    if leap {
+        parsed.second = Some(59);
+    }
     let time = parsed.to_naive_time();
     let date = parsed.to_naive_date();
     // Only absent fields may be filled in from the current time. Fields that are present
@@ -391,7 +398,7 @@ fn attempt(
     if date.is_err() && date_fields != Parsed::new() {
         return Err(("Failed to construct a useful datetime".to_string(), count));
     }
-    if let Some(tz) = tz {
+    let datetime = if let Some(tz) = tz {
         match (time, date) {
             (Ok(time), Ok(date)) => tz
                 .from_local_datetime(&date.and_time(time))
@@ -453,6 +460,23 @@ fn attempt(
                 .map(GenericDateTime::Fixed),
             _ => Err(("Failed to construct a useful datetime".to_string(), count)),
         }
+    }?;
+    if leap {
+        let second = Duration::seconds(1);
+        match datetime {
+            GenericDateTime::Fixed(d) => d.checked_add_signed(second).map(GenericDateTime::Fixed),
+            GenericDateTime::Timezone(d) => d
+                .checked_add_signed(second)
+                .map(GenericDateTime::Timezone),
+        }
+        .ok_or_else(|| {
+            (
+                "Datetime does not represent a valid moment in time".to_string(),
+                count,
+            )
+        })
+    } else {
+        Ok(datetime)
     }
 }
 
